@@ -84,7 +84,8 @@ func VerifHarness_C19_StageSpecial() {
 	special := []float32{1, -1, 0, float32(math.NaN()), float32(math.Inf(1)), 3e38, 0.5}
 	pick := func(name string) float32 { return special[verifIntRange(name, 0, len(special)-1)] }
 	idx := &embedding.Index{Dimension: 1, WordVectors: map[string][]float32{"aa": {pick("word")}, "bb": {pick("word2")}}}
-	for i := 0; i < 3; i++ {
+	// the table may be shorter than the database (commands added after it was generated)
+	for i, n := 0, verifIntRange("tableEntries", 0, 3); i < n; i++ {
 		idx.CmdEmbeddings = append(idx.CmdEmbeddings, []float32{pick("cmd")})
 	}
 	db.embeddingIndex = idx
